@@ -357,6 +357,15 @@ func (fc *FuncCtx) ap0(v ssa.Value) string {
 			return fc.AP(nx.Iter) + fmt.Sprintf("[*k%d]", x.Index)
 		}
 		if c, ok := x.Tuple.(*ssa.Call); ok {
+			// strings.CutPrefix(s, p): the remainder is strings.TrimPrefix(s, p) (the found flag is strings.HasPrefix(s, p))
+			if sc := c.Call.StaticCallee(); sc != nil && x.Index == 0 && len(c.Call.Args) == 2 {
+				switch sc.String() {
+				case "strings.CutPrefix":
+					return "strings.TrimPrefix(" + fc.AP(c.Call.Args[0]) + "," + fc.AP(c.Call.Args[1]) + ")"
+				case "strings.CutSuffix":
+					return "strings.TrimSuffix(" + fc.AP(c.Call.Args[0]) + "," + fc.AP(c.Call.Args[1]) + ")"
+				}
+			}
 			if ap := fc.inlinedResultAP(c, x.Index); ap != "" {
 				return ap
 			}
